@@ -528,3 +528,78 @@ add("C16", "replace_args-drops-unmatched", LT,
 add("C16", "add_arg_to_call-replaces-all", LT,
     [("        new_args = list(node.args) + [\n            cst.Arg(\n                keyword=cst.Name(value=name),", "        new_args = [\n            cst.Arg(\n                keyword=cst.Name(value=name),")],
     "fire", "R-HELPER-CONTRACT", "add_arg_to_call")
+
+# --------------------------------------------------------------------------- rules added after the seeded-change rounds
+add("C03", "libcst-parses-raw-bytes", LT,
+    [("source_tree = cst.parse_module(file_path.read_bytes().decode(\"utf-8\"))", "source_tree = cst.parse_module(file_path.read_bytes())")],
+    "fire", "R-CODEC-AGREE", "LibcstTransformerPipeline.apply")
+add("C10", "lenient-decode", LT,
+    [("source_tree = cst.parse_module(file_path.read_bytes().decode(\"utf-8\"))", "source_tree = cst.parse_module(file_path.read_bytes().decode(\"utf-8\", errors=\"replace\"))")],
+    "fire", "R-CODEC-AGREE", "LibcstTransformerPipeline.apply")
+add("C03", "diff-splitlines-again", "codemodder/diff.py",
+    [("        split_lines(original_tree.code),\n        split_lines(new_tree.code),", "        original_tree.code.splitlines(keepends=True),\n        new_tree.code.splitlines(keepends=True),")],
+    "fire", "R-LINE-UNIT", "create_diff_from_tree")
+add("C10", "worker-stats-file", BC,
+    [("        findings_for_rule = None\n        if results is not None:", "        if filename.stat().st_size == 0:\n            return FileContext(context.directory, filename)\n        findings_for_rule = None\n        if results is not None:")],
+    "fire", "R-WORKER-NO-RAISE", "_process_file")
+add("C18", "dispatcher-swallows-errors", LT,
+    [("                new_node = attr(original_node, updated_node)\n                self.report_change(original_node)\n                return new_node", "                try:\n                    new_node = attr(original_node, updated_node)\n                except Exception:\n                    return updated_node\n                self.report_change(original_node)\n                return new_node")],
+    "fire", "R-NO-SWALLOW", "_new_or_updated_node")
+add("C12", "ior-adopts-inner-dict", RES,
+    [("        for k, v in other.items():\n            self[k] = list_dict_or(self.get(k, {}), v)\n        return self", "        for k, v in other.items():\n            if k not in self:\n                self[k] = v\n            else:\n                self[k] = list_dict_or(self[k], v)\n        return self")],
+    "fire", "R-MERGE-NO-ALIAS", "__ior__")
+add("C06", "sonar-status-blacklist", SRES,
+    [("                if result[\"status\"].lower() in (\"open\", \"to_review\"):", "                if result[\"status\"].lower() not in (\"resolved\", \"closed\"):")],
+    "fire", "R-OPEN-STATUS", "from_json")
+add("C06", "match-location-line-fallback", RES,
+    [("        return any(\n            same_line(pos, location)\n            and (", "        return any(\n            (same_line(pos, location) and location.start.column <= 0)\n            or same_line(pos, location)\n            and (")],
+    "fire", "R-MATCH-COLUMNS", "match_location")
+add("C17", "sast-only-from-result-map", CM,
+    [("        sast_only=argv.sonar_issues_json or argv.sarif,", "        sast_only=any(tool_result_files_map.values()),")],
+    "fire", "R-SAST-ONLY-SOURCE", "run")
+add("C20", "fsync-inside-report-try", CTF,
+    [("                f.write(self.model_dump_json(exclude_none=True))\n", "                f.write(self.model_dump_json(exclude_none=True))\n                os.fsync(f.fileno())\n")],
+    "fire", "R-REPORT-TRY-MINIMAL", "write_report")
+add("C20", "ai-check-after-fallback", "codemodder/llm.py",
+    [("    if bool(azure_openapi_key) ^ bool(azure_openapi_endpoint):\n        raise MisconfiguredAIClient(\n            \"Azure OpenAI API key and endpoint must both be set or unset\"\n        )\n\n    if azure_openapi_key and azure_openapi_endpoint:", "    if azure_openapi_key and azure_openapi_endpoint:"),
+     ("    logger.info(\"Using OpenAI API client\")\n    return OpenAI(api_key=api_key)", "    logger.info(\"Using OpenAI API client\")\n    client = OpenAI(api_key=api_key)\n    if bool(azure_openapi_key) ^ bool(azure_openapi_endpoint):\n        raise MisconfiguredAIClient(\n            \"Azure OpenAI API key and endpoint must both be set or unset\"\n        )\n    return client")],
+    "fire", "R-AI-CONFIG", "setup_openai_llm_client")
+add("C14", "has-requirement-cached", "codemodder/project_analysis/file_parsers/package_store.py",
+    [("    def has_requirement(self, requirement: Requirement) -> bool:\n        return requirement.name in {dep.name for dep in self.dependencies}", "    @cached_property\n    def declared_names(self):\n        return frozenset(dep.name for dep in self.dependencies)\n\n    def has_requirement(self, requirement: Requirement) -> bool:\n        return requirement.name in self.declared_names"),
+     ("from dataclasses import dataclass", "from dataclasses import dataclass\nfrom functools import cached_property")],
+    "fire", "R-STORE-COHERENT", "has_requirement")
+add("C14", "requirement-with-quoted-marker", "codemodder/dependency.py",
+    [("Requirement(\"security==1.3.1\")", "Requirement('security==1.3.1; python_version >= \"3.8\"')")],
+    "fire", "R-REQ-CONSTANTS", "codemodder.dependency")
+add("C09", "context-parse-cache", CTXF,
+    [("        self.semgrep_prefilter_results = None\n        self.openai_llm_client", "        self.semgrep_prefilter_results = None\n        self.parsed_modules = {}\n        self.openai_llm_client"),
+     ("    def add_changesets(self, codemod_name: str, change_sets: List[ChangeSet]):", "    def cached_module(self, path):\n        return self.parsed_modules.get(path)\n\n    def add_changesets(self, codemod_name: str, change_sets: List[ChangeSet]):")],
+    "fire", "R-RUNWIDE-STATE", "cached_module")
+add("C09", "detector-reuses-prefilter", "codemodder/codemods/semgrep.py",
+    [("            files_to_analyze = context.semgrep_results_for_rule(codemod_id)\n            return semgrep_run(context, yaml_files, files_to_analyze)", "            files_to_analyze = context.semgrep_results_for_rule(codemod_id)\n            if context.semgrep_prefilter_results and not context.get_changed_files():\n                return context.semgrep_prefilter_results\n            return semgrep_run(context, yaml_files, files_to_analyze)")],
+    "fire", "R-DETECTOR-FRESH", "")
+add("C19", "short-empty-elements-enabled", XT,
+    [("                transformer_instance = self.xml_transformer(\n                    out=output_file,\n                    file_context=file_context,\n                    results=results,\n                )", "                transformer_instance = self.xml_transformer(\n                    out=output_file,\n                    file_context=file_context,\n                    results=results,\n                    short_empty_elements=True,\n                )")],
+    "fire", "R-RAW-WRITE-FLUSH", "XMLTransformerPipeline.apply")
+add("C19", "sast-regex-findings-from-dict", RT,
+    [("                changes.append(\n                    Change(\n                        lineNumber=lineno + 1,\n                        description=self.change_description,\n                        findings=file_context.get_findings_for_location(lineno + 1),\n                    )\n                )\n\n            else:", "                changes.append(\n                    Change(\n                        lineNumber=lineno + 1,\n                        description=self.change_description,\n                        findings=by_line.get(lineno + 1),\n                    )\n                )\n\n            else:"),
+     ("        result_linenums = [", "        by_line = {loc.start.line: [res.finding] for res in results for loc in res.locations}\n        result_linenums = [")],
+    "fire", "R-LINE-INDEX-AGREE", "SastRegexTransformerPipeline._apply")
+add("C11", "order-imports-partial-key", "codemodder/codemods/transformations/clean_imports.py",
+    [("        sorted_name_alias.sort(key=lambda t: (_natural_key(t[0]), t[1] or \"\"))", "        sorted_name_alias.sort(key=lambda t: _natural_key(t[0]))")],
+    "fire", "R-NO-UNORDERED-ITER", "_create_from_import_stmt")
+add("C13", "line-patterns-dict", CD,
+    [("    return [\n        int(result[1])\n        for pat in patterns\n        if len(result := pat.split(\":\")) == 2\n        and any(fnmatch.fnmatch(candidate, result[0]) for candidate in candidates)\n    ]", "    by_path = {pat.split(\":\")[0]: int(pat.split(\":\")[1]) for pat in patterns if pat.count(\":\") == 1}\n    return [\n        line\n        for path_pat, line in by_path.items()\n        if any(fnmatch.fnmatch(candidate, path_pat) for candidate in candidates)\n    ]")],
+    "fire", "R-LINE-PATTERNS-ALL", "file_line_patterns")
+add("C05", "symlink-filter-weakened", CD,
+    [("        if Path(path).is_file() and not Path(path).is_symlink()", "        if Path(path).is_file() and (not Path(path).is_symlink() or str(Path(path).resolve()).startswith(str(parent_path)))")],
+    "fire", "R-ENUM-SIBLINGS", "files_for_directory")
+add("C05", "remediation-gets-default-excludes", CTXF,
+    [("            paths,\n            self.path_exclude,\n            self.included_paths,", "            paths,\n            self.path_exclude or None,\n            self.included_paths,")],
+    "fire", "R-FILESET-SOURCE", "filter_paths")
+add("C02", "unused-import-remover-by-name", "codemodder/codemods/transformations/remove_unused_imports.py",
+    [("            if (ia, original_node) not in self.unused_imports", "            if ia.evaluated_name not in {a.evaluated_name for a, _ in self.unused_imports}")],
+    "fire", "R-IMPORT-REMOVAL-OWNER", "RemoveUnusedImportsTransformer")
+add("C16", "https-updated-args-prefix-only", "core_codemods/https_connection.py",
+    [("        new_args = list(original_args)\n        if self.count_positional_args(new_args) == 10:\n            new_args[9] = new_args[9].with_changes(\n                keyword=cst.parse_expression(\"_proxy_config\")\n            )\n        return new_args", "        if self.count_positional_args(original_args) == 10:\n            return [*original_args[:9], original_args[9].with_changes(keyword=cst.parse_expression(\"_proxy_config\"))]\n        return list(original_args)")],
+    "fire", "R-ARGS-PRESERVED", "updated_args")
